@@ -4,6 +4,8 @@ import gen as G
 import conv
 
 COQ_IMPORTS = ['Model.DFA', 'Model.NFA', 'Model.Iso', 'Judge.C20_judge']
+PDA_FREE = True      # no PDA is involved: the recycling pass runs with GambaTools.pda_epsilon_closure_max_iterations = 3
+LOG_SAFE = True      # no printed output is read back: the recycling pass runs with GambaTools.enable_logging = True
 RULE = ('ordered pairs of DFAs over a common alphabet: all pairs of the 16 two-state one-symbol DFAs and of one-state DFAs, a seeded sample of pairs from the 2x2 and 3x1 spaces; random DFAs <=6 states '
         'paired with a renamed/permuted copy, a copy with one transition or one accepting bit changed, a copy with an extra unreachable state, a copy with a duplicated (equivalent) state, or an unrelated DFA; '
         'each under 4 (quick) / 16 (thorough) PYTHONHASHSEED values with a 3 s limit per call. Non-trivial = both automata have >= 2 reachable states; distinct by the pair of texts.')
